@@ -78,3 +78,10 @@ func init() {
 	register("asm.amd64", noop)
 	register("asm.arm64", noop)
 }
+
+func init() {
+	// leakage-trace events are assembled by vlib/props/c08.py from leakfilter output
+	noop := func(ctx *Ctx, c Cmd, ev Ev) {}
+	register("leak.pair", noop)
+	register("leak.schedule", noop)
+}
